@@ -6,7 +6,7 @@ MANIFEST = {
     "engine": "tlc TreeJail (attack scenarios) + tlc TreeJailHist (histories on one handle: directory -> symlink swaps between operations) + vhjail c26 (raw tree objects, recording billy fs below the worktree wrapper) + tlc TreeJailTrace",
     "technique": "TLC enumerates attack scenarios (malicious tree-entry paths incl. .git case/NTFS/HFS disguises and '..', symlink entries, planted symlinks, symlink-then-directory swaps) x protectNTFS x protectHFS; trees are written as raw objects; each Worktree API call's ordered filesystem requests are replayed in TLA+ over an evolving symlink table and every request must resolve (lexically and through links) inside the worktree and outside .git; sentinel hashes as independent observation",
     "text": "Scenario space: entry paths of <= 2 (quick) / <= 3 (thorough) components over 13 component classes, 5 link targets, 7 scenario shapes (incl. dangling planted links in the final position), 4 protect settings; a VERIF_SEED-stratified sample per scenario key is run (quick 400, thorough 4000 scenarios) through Checkout(force), CherryPick (onto a harmless base commit), Reset(hard), Status, Add, Restore, Move, Remove, Clean; plus 384 submodule scenarios (.gitmodules name x path x planted symlink; quick: 120 sampled) through Submodules(), Submodule.Init and Submodule.Repository with the storage filesystem recorded too.",
-    "note": "Linux/osfs only: NTFS/HFS spellings are judged by name (a forbidden component must never be created or traversed when the corresponding protect flag is on), not by a folding filesystem. Pull and Submodule.Update (needs a clonable remote) are not driven. A final '.git' component below a subdirectory (gitlink file position) is tolerated. Only calls that reach the billy filesystem are seen.",
+    "note": "Linux/osfs only: NTFS/HFS spellings are judged by name (a forbidden component must never be created or traversed when the corresponding protect flag is on), not by a folding filesystem. Pull and Submodule.Update (needs a clonable remote) are not driven. A final '.git' component below a subdirectory (gitlink file position) is tolerated. Only calls that reach the billy filesystem are seen: with the recorder in place go-git takes its generic code path; the os.Root based path it uses for checkout / reset / cherry-pick on a plain osfs (*BoundOS) worktree is exercised only by the history replay (TreeJailHist, on-disk environment), where it is judged by effects (newly staged index paths, sentinels), not by a recorded footprint.",
 }
 
 CFG = """CONSTANTS MaxDepth = %d EmitRows = TRUE
@@ -87,5 +87,6 @@ def run(ctx):
     ctx.cov["api_traces_judged_by_tlc"] = nver
     ctx.cov["fs_requests_judged_by_tlc"] = nreq
     ctx.cov["fs_requests_rejected"] = nbad
-    ctx.assumptions += ["worktree side effects go through the billy filesystem given as worktree", "the scenario sample is seeded (VERIF_SEED) and stratified by scenario key",
+    ctx.assumptions += ["attack scenarios (TreeJail) run with the recorder as worktree filesystem; only the histories of TreeJailHist also run on a plain on-disk *BoundOS worktree (reused and fresh handle)",
+                        "worktree side effects go through the billy filesystem given as worktree", "the scenario sample is seeded (VERIF_SEED) and stratified by scenario key",
                         "Stat/Lstat/Readlink of an entry is judged by its parent directory"]
